@@ -21,7 +21,7 @@ import (
 func init() {
 	h.Register(&h.Prop{
 		ID:   "C05",
-		Rule: "adv: n in 3..5, one Byzantine member; fault catalogue (bad share, equivocating commitments with and without cross-wired session ids, T in {0,1,n+1,2^32-1} bound/unbound, self-consistent deals of threshold 0,1,2,n+1,2n (exactly T commitments, fitting share and session id), wrong index (small, out of range, equal to the own index modulo 2^32), other-length commitments, missing share/value, raw session id, junk / missing / redirected / previous-session deal, slot pre-emption under an honest or out-of-range index; response with bad / missing / foreign signature, foreign or previous session id, complaint about an honest dealer or about the recipient's own deal, relabelled or previous-session genuine response, missing response, out-of-range responder) injected at every position of the honest delivery sequence (all in thorough and for n=3,4 in quick; sampled for n=5 in quick), pairs of faults in thorough; non-trivial = every case (each has at least one adversarial message); distinct = distinct case line",
+		Rule: "adv: n in 3..5, one Byzantine member; fault catalogue (bad share, equivocating commitments with and without cross-wired session ids, T in {0,1,n+1,2^32-1} bound/unbound, self-consistent deals of threshold 0,1,2,n+1,2n (exactly T commitments, fitting share and session id), wrong index (small, out of range, equal to the own index modulo 2^32), other-length commitments, missing share/value, raw session id, junk / missing / redirected / previous-session deal, slot pre-emption under an honest or out-of-range index; response with bad / missing / foreign signature, foreign or previous session id, complaint about an honest dealer or about the recipient's own deal, relabelled or previous-session genuine response, missing response, out-of-range responder) injected at every position of the honest delivery sequence (all in thorough and for n=3,4 in quick; sampled for n=5 in quick), pairs of faults in thorough (n = 3: every pair sampled 1/8 per seed, n = 4, 5: 500 / 300 random pairs); non-trivial = every case (each has at least one adversarial message); distinct = distinct case line",
 		Gen:  gen,
 		Exec: exec,
 	})
@@ -292,7 +292,7 @@ func gen(tier string, rng *h.Rng, emit func(string)) {
 	seed := func() uint64 { return rng.U64() >> 1 }
 	for n := 3; n <= 5; n++ {
 		bs := []int{n - 1}
-		if n == 3 || thorough {
+		if n == 3 {
 			bs = append(bs, 0)
 		}
 		for _, b := range bs {
@@ -398,9 +398,9 @@ func gen(tier string, rng *h.Rng, emit func(string)) {
 			// 3. pairs of faults
 			np := 0
 			if thorough {
-				np = 1500
-				if n == 3 {
-					np = 4000
+				np = 500
+				if n == 5 {
+					np = 300
 				}
 			} else if n == 3 {
 				np = 60
@@ -413,7 +413,7 @@ func gen(tier string, rng *h.Rng, emit func(string)) {
 						if inst[a].pos == inst[c].pos && inst[a].replace && inst[c].replace {
 							continue
 						}
-						if rng.Intn(3) != 0 {
+						if rng.Intn(8) != 0 {
 							continue
 						}
 						emit(build(seed(), n, b, []injection{inst[a], inst[c]}))
